@@ -56,7 +56,7 @@ def patterns(depth):
 
 
 SOURCES = ['msg-field', 'file-def', 'child-type', 'type-ref', 'dep-file-def', 'dep-msg-ref', 'lro-response', 'deep-ref', 'redeclared-common',
-           'common', 'in-resource-response', 'map-value', 'response-ref']
+           'common', 'in-resource-response', 'map-value', 'response-ref', 'deep-child-ref']
 COMMON_TYPES = [('cloudresourcemanager.googleapis.com/Project', 'project'), ('cloudresourcemanager.googleapis.com/Organization', 'organization'),
                 ('cloudresourcemanager.googleapis.com/Folder', 'folder'), ('cloudbilling.googleapis.com/BillingAccount', 'billing_account'),
                 ('locations.googleapis.com/Location', 'location')]
@@ -132,6 +132,14 @@ def build(pats, chunk_id, internal=False):
             msgs.append(message(tn, [field('name', 1, 'string')], resource=(rtype, pat)))
             rq_fields.append(field(f'f{j}', len(rq_fields) + 1, 'string', ref=rtype))
         cells.append(dict(id=f'{SOURCES[src]}:{pat}', pattern=pat, helper=helper, source=src))
+    # wave 7: a file-level definition whose *only* link to the service is a child_type reference on a field of a message
+    # three levels below the request (e.g. request.scope.parent); a few patterns per library, on top of the rotation above
+    for j, pat in list(enumerate(pats))[:6]:
+        tn = 'Nested' + type_name(j)
+        rtype = f'{DOM}/{tn}'
+        defs.append((rtype, pat))
+        deep_fields.append(field(f'c{j}', len(deep_fields) + 1, 'string', child_ref=rtype))
+        cells.append(dict(id=f'deep-child-ref:{pat}', pattern=pat, helper=names.snake(tn), source=13))
     msgs.append(message('Deep3', deep_fields))
     msgs.append(message('Deep2', [field('d3', 1, Q('Deep3')), field('x', 2, 'int32')]))
     msgs.append(message('Deep1', [field('d2', 1, Q('Deep2'), repeated=True)]))
